@@ -30,6 +30,9 @@ def scf(row, shift_atom=None, shift=None, level=2, cheap=False):
     cfg = {"sl": "npa" if row.get("mgga", True) else "np", "nldf": nldf, "sdmx": sdmx, "plan": "gaussian", "interp": row["interp"],
            "eval": "rbf", "mode": "SEP", "mix": "xmix_c"}
     ks = e2e.make_session(cfg, mol, row["spin"] == "U", 11, level=level)
+    if row.get("nlc"):
+        ks.nlc = "vv10"
+        ks.nlcgrids.level = 0
     if row["df"]:
         ks = ks.density_fit()
     ks.conv_tol = 1e-11
@@ -46,7 +49,7 @@ def check_row(job):
     row = job["row"]
     exp = job["expect"]
     viol, n = [], 0
-    tag = "%s:df=%d:%s:gr=%d:%s" % (row["spin"], row["df"], row["fam"], row["grid_response"], row["interp"])
+    tag = "%s:df=%d:%s:gr=%d:%s%s" % (row["spin"], row["df"], row["fam"], row["grid_response"], row["interp"], ":vv10" if row.get("nlc") else "")
     try:
         ks, e0 = scf(row, level=2 if job["coords"] else 0, cheap=not job["coords"])
     except Exception as ex:
@@ -106,7 +109,7 @@ def check_row(job):
     ssum = np.abs(f.sum(0)).max()
     n += 1
     if job["coords"] and ssum > (1e-7 if row["grid_response"] else 2e-4):
-        viol.append({"site": "forces:sum-rule:%s" % ("grid-response" if row["grid_response"] else "fixed-grid"), "detail": {"row": row, "sum": f.sum(0).tolist()}})
+        viol.append({"site": "forces:sum-rule:%s%s" % ("grid-response" if row["grid_response"] else "fixed-grid", ":vv10" if row.get("nlc") else ""), "detail": {"row": row, "sum": f.sum(0).tolist()}})
     for atom, ax in job["coords"]:
         h = 2e-3
 
@@ -120,7 +123,7 @@ def check_row(job):
         est = abs(f1 - f2) * BOHR
         n += 1
         if not (abs(fd - f[atom, ax]) <= tol + 5 * est):
-            viol.append({"site": "forces:vs-fd:%s:%s:%s" % (row["fam"], "grid-response" if row["grid_response"] else "fixed-grid", row["spin"]),
+            viol.append({"site": "forces:vs-fd:%s%s:%s:%s" % (row["fam"], "+vv10" if row.get("nlc") else "", "grid-response" if row["grid_response"] else "fixed-grid", row["spin"]),
                          "detail": {"row": row, "atom": atom, "axis": ax, "analytic": float(f[atom, ax]), "fd": float(fd), "est": float(est)}})
     return {"id": job["id"], "viol": viol, "n": n}
 
@@ -153,7 +156,7 @@ def main():
     if quick:
         for k, (row, exp) in enumerate(rows):
             if exp["kind"] == "forces":
-                seen3.setdefault((row["spin"], row["grid_response"], row["fam"]), []).append(k)
+                seen3.setdefault((row["spin"], row["grid_response"], row["fam"], row["nlc"]), []).append(k)
         for t, (key3, ks_) in enumerate(sorted(seen3.items(), key=repr)):
             fdrows.add(ks_[(t + ck.seed) % len(ks_)])
     for k, (row, exp) in enumerate(rows):
